@@ -149,3 +149,39 @@ pub fn c18_native_swarm() {
     }
     println!("c18_native_swarm: {} probed runs (12 iterations each) checked", cases);
 }
+
+/// The SHIPPED template `heuristics::pso::real_pso` (the probed runs above assemble the same components by hand): at the end of a
+/// run every personal best is at least as good as the position its particle was last evaluated at, carries f(its position), the
+/// global best equals the best personal best, and there is one memory per particle -- for social-only (c_one = 0), cognitive-only
+/// (c_two = 0) and ordinary swarms.
+// @native-harness
+pub fn c18_native_shipped_template() {
+    let mut cases = 0u64;
+    for seed in 0..6u64 {
+        for (particles, sw, ew, c1, c2, vm, n) in [(6u32, 0.9, 0.4, 1.0, 1.5, 1.0, 15u32), (5, 0.7, 0.7, 0.0, 2.0, 1.0, 15), (5, 0.7, 0.3, 2.0, 0.0, 0.5, 15), (4, 0.0, 0.0, 0.0, 0.0, 1.0, 4), (1, 1.2, 0.2, 0.0, 1.0, 2.0, 10), (8, 0.5, 0.5, 0.0, 0.5, 0.25, 1)] {
+            let config = pso::real_pso::<ScaledSphere<0>>(pso::RealProblemParameters { num_particles: particles, start_weight: sw, end_weight: ew, c_one: c1, c_two: c2, v_max: vm }, LessThanN::iterations(n)).unwrap();
+            let state = config.optimize_with(&ScaledSphere::<0>, |state| { state.insert_evaluator(Sequential::<ScaledSphere<0>>::new()); state.insert(Random::new(seed)); Ok(()) }).expect("the shipped PSO template must run");
+            let ctx = format!("real_pso particles={particles} weights {sw}->{ew} c_one={c1} c_two={c2} v_max={vm} iterations={n} seed={seed}");
+            let fail = |why: String| -> ! { eprintln!("COUNTEREXAMPLE {ctx}: {why}"); panic!("swarm memories violate C18") };
+            let pops = state.populations();
+            let cur = pops.current();
+            let bests = state.borrow_value::<BestParticles<ScaledSphere<0>, Global>>();
+            let vels = state.borrow_value::<ParticleVelocities<Global>>();
+            if cur.len() != particles as usize || bests.len() != cur.len() || vels.len() != cur.len() { fail(format!("{} particles, {} personal bests, {} velocities", cur.len(), bests.len(), vels.len())) }
+            for k in 0..cur.len() {
+                if !cur[k].is_evaluated() { fail(format!("particle {k} is not evaluated at the end of the run")) }
+                let (b, f) = (bests[k].objective().value(), cur[k].objective().value());
+                if b > f { fail(format!("personal best of particle {k} is {b} although the particle has been evaluated at {f}")) }
+                if b != scaled::<0>(bests[k].solution()) { fail(format!("personal best of particle {k} carries {b} but f(position) = {}", scaled::<0>(bests[k].solution()))) }
+                if vels[k].iter().any(|v| !(*v >= -vm && *v <= vm)) { fail(format!("velocity of particle {k} outside [-{vm}, {vm}]: {:?}", vels[k])) }
+            }
+            let best_personal = bests.iter().map(|b| b.objective().value()).fold(f64::INFINITY, f64::min);
+            match state.borrow_value::<BestParticle<ScaledSphere<0>, Global>>().as_ref() {
+                None => fail("no global best at the end of the run".into()),
+                Some(g) => if g.objective().value() != best_personal { fail(format!("global best {} differs from the best personal best {best_personal}", g.objective().value())) },
+            }
+            cases += 1;
+        }
+    }
+    println!("c18_native_shipped_template: {} runs of real_pso checked", cases);
+}
